@@ -4,7 +4,7 @@ from __future__ import annotations
 import ast
 from fractions import Fraction
 
-from ..astq import U, kwarg, statements
+from ..astq import store_targets, U, kwarg, statements
 from ..cfg import CFG, header_walk
 from ..index import AnalysisError, walk_no_nested
 from ..interp import Ext, FuncRef
@@ -31,11 +31,45 @@ def extract_shifts(ctx, f, rule):
     state = a[1].arg if len(a) > 1 else "state"
     mean_var = None
     mean_of = None
+
+    def whole_mean(e, st_name):
+        """name of the state variable when `e` is the mean of the whole of state[<name>]; ('subset', text) when it is the mean of a part of it"""
+        arg = None
+        if isinstance(e, ast.Call) and U(e.func) == "torch.mean" and len(e.args) == 1 and not e.keywords:
+            arg = e.args[0]
+        elif isinstance(e, ast.Call) and isinstance(e.func, ast.Attribute) and e.func.attr == "mean" and not e.args and not e.keywords:
+            arg = e.func.value
+        if arg is None:
+            return None
+        if isinstance(arg, ast.Subscript) and U(arg.value) == st_name and isinstance(arg.slice, ast.Constant):
+            return arg.slice.value
+        inner = arg
+        while isinstance(inner, ast.Subscript):
+            if isinstance(inner.value, ast.Subscript) and U(inner.value.value) == st_name and isinstance(inner.value.slice, ast.Constant):
+                return ("subset", U(arg), inner.value.slice.value)
+            inner = inner.value
+        return None
     for st in statements(f.node):
-        if isinstance(st, ast.Assign) and isinstance(st.targets[0], ast.Name) and isinstance(st.value, ast.Call) and U(st.value.func) == "torch.mean" and st.value.args:
-            a0 = st.value.args[0]
-            if isinstance(a0, ast.Subscript) and U(a0.value) == state and isinstance(a0.slice, ast.Constant) and not st.value.keywords and len(st.value.args) == 1:
-                mean_var, mean_of = st.targets[0].id, a0.slice.value
+        if not (isinstance(st, ast.Assign) and isinstance(st.targets[0], ast.Name)):
+            continue
+        v = st.value
+        got = whole_mean(v, state)
+        helper = None
+        if got is None and isinstance(v, ast.Call) and isinstance(v.func, ast.Attribute) and U(v.func.value) in ("cls", "self") and len(v.args) == 1 and U(v.args[0]) == state and f.cls is not None:
+            # the shift comes from a helper of the class: its (single) returned expression is read instead
+            helper = ctx.ix.method(f.cls, v.func.attr)
+            if helper is not None:
+                ha = [p.arg for p in helper.node.args.args if p.arg not in ("self", "cls")]
+                rets = [r for r in statements(helper.node) if isinstance(r, ast.Return) and r.value is not None]
+                if len(ha) == 1 and len(rets) == 1:
+                    got = whole_mean(rets[0].value, ha[0])
+        if isinstance(got, tuple):
+            where = helper or f
+            ctx.violation(rule, where, st if helper is None else where.node, f"the shift is the mean of a part of `{got[2]}` (`{got[1][:70]}`), not of all its entries: after the re-centring the "
+                          f"{got[2]} of the cohort are not zero-mean", construct=f"shift = mean of all {got[2]}")
+            mean_var, mean_of = st.targets[0].id, got[2]
+        elif got is not None:
+            mean_var, mean_of = st.targets[0].id, got
     if mean_var is None:
         raise AnalysisError(rule, f"{f.qual}: cannot find `m = torch.mean(state[<variable>])`")
     shifts, nodes = {}, {}
@@ -100,7 +134,18 @@ def r1_shifts(ctx):
                               "the values used afterwards are not the ones the gauge argument is about")
             if isinstance(c, ast.Call) and any(isinstance(a_, ast.Name) and a_.id == st_name for a_ in list(c.args) + [k.value for k in c.keywords]) \
                     and not (isinstance(c.func, ast.Attribute) and U(c.func.value) == st_name) and U(c.func) not in ("torch.mean",):
-                ctx.violation("C10.R1", f, c, f"`{U(c)[:70]}` hands the state to another function inside the re-centring: its effect is not covered by the gauge argument")
+                # a helper of the class that only reads the state (no store, no call on it other than reads) is part of the computation of the shift
+                hm = ctx.ix.method(f.cls, c.func.attr) if isinstance(c.func, ast.Attribute) and U(c.func.value) in ("cls", "self") and f.cls is not None else None
+                pure = False
+                if hm is not None:
+                    hp = [p_.arg for p_ in hm.node.args.args if p_.arg not in ("self", "cls")]
+                    hs = hp[0] if hp else None
+                    writes = [x for x in ast.walk(hm.node) if (isinstance(x, (ast.Assign, ast.AugAssign)) and any(isinstance(t_, ast.Subscript) and U(t_.value) == hs for t_ in store_targets(x)))
+                              or (isinstance(x, ast.Call) and isinstance(x.func, ast.Attribute) and U(x.func.value) == hs and x.func.attr not in READS)
+                              or (isinstance(x, ast.Call) and any(isinstance(a_, ast.Name) and a_.id == hs for a_ in x.args) and U(x.func) not in ("torch.mean",))]
+                    pure = hs is not None and not writes
+                if not pure:
+                    ctx.violation("C10.R1", f, c, f"`{U(c)[:70]}` hands the state to another function inside the re-centring: its effect is not covered by the gauge argument")
         others = {k: v for k, v in shifts.items() if k != "xi"}
         ctx.check(bool(others) and all(v == 1 for v in others.values()), "C10.R1", f, f.node, f"compensations {sorted(others)} shifted by +mean(xi)",
                   f"compensating shifts are {others} (each must be +1 x mean(xi))", construct="compensating shifts")
